@@ -1,6 +1,7 @@
 //! `vcheck <ID> [--tier quick|thorough] [--replay path]`
 
 use super::bb_c05::*;
+use super::bb_c06::*;
 use super::bb_c10::*;
 use super::bb_c12::*;
 use super::bb_c18::*;
@@ -386,6 +387,47 @@ fn c06(ctx: &Ctx) -> i32 {
     };
     let rule = "watch mode: generated graph x schedule x up to 6 file-change notices (idle, mid-run, in a dependency while the dependent runs, bursts) plus watcher notices caused by producers' outputs; at final quiescence every target not blocked by a failure is up to date w.r.t. the version model, its last execution began after its dependencies' last runs ended and after its last notice; no run invalidated in flight is acknowledged; non-trivial = a notice landed while the target or a dependency/dependent had a run in flight; distinct = shape classes x placement classes x #notices";
     sim_check(ctx, &mut report, params, ctx.tier.pick(60_000, 1_500_000), oracle_c06, rule, 6);
+    // black-box part: real binary, real inotify
+    report.assume("BB: placements by rendezvous files (scripts hold on request, before or after reading their inputs); one 300 ms grace after an in-flight change (inotify latency is far below); idle = no child, threads asleep, CPU and trace unchanged over 3 samples of 150 ms");
+    let open = report.open_signatures();
+    let exclude = open.iter().any(|s| s == "bb-c06:snapshot-after-script");
+    // regression replays and the live reproduction of open findings (never excluded)
+    for path in replay_files(ctx) {
+        if let Ok(v) = read_replay(&path) {
+            let r = &v["replay"];
+            if r["engine"] == "BB-c06" {
+                match replay_c06(r, false) {
+                    Ok(res) => {
+                        if let Some(msg) = res.violation {
+                            let sig = res.signature.clone().unwrap_or_default();
+                            if report.is_known(&sig).is_none() {
+                                println!("  replay {} fails: {}", path.display(), msg);
+                            }
+                            report.fail(Failure { message: msg, signature: sig, replay: res.replay });
+                        }
+                    }
+                    Err(e) => report.infra_errors.push(e),
+                }
+            }
+        }
+    }
+    if ctx.replay.is_none() {
+        let pr = PropRun {
+            ctx,
+            engine: "BB",
+            rule: "real binary with --watch and real inotify on generated graphs (n <= 4) of copy-style scripts (out_T = in_T | out of its dependencies), started on a clean or a built tree; 0-4 steps: idle change, burst, change landing while a run of the affected target or of a dependent is held (before or after the held script read its inputs); at quiescence every out_T must equal f(final inputs); start-up must not exit; non-trivial = a change landed while a run was in flight, or the tree was clean at start-up; distinct = placement classes x graph size x edges",
+            total_cases: ctx.tier.pick(16, 200),
+            threads: 6.min(ctx.threads),
+            max_shrink_iters: 16,
+            stream: 106,
+        };
+        let (mut part, failures) = run_prop(&pr, c06_case, |c: &C06Case| eval_c06(c, exclude));
+        part.extra.insert("known_finding_placements_excluded".into(), serde_json::json!(part.classes.get("excluded-known-finding-placement").copied().unwrap_or(0)));
+        report.add(part);
+        for f in failures {
+            report.fail(f);
+        }
+    }
     report.finish()
 }
 
